@@ -127,6 +127,10 @@ func (t *BaseTraveler) GetCurrent() *DataElement {
 }
 
 func (t *BaseTraveler) GetCurrentID() string {
+	if t.Current == nil {
+		// null traveler (outNull/inNull found nothing, or a mark that was never set)
+		return ""
+	}
 	return t.Current.ID
 }
 
@@ -172,6 +176,9 @@ func NewElementFromEdge(e *gripql.Edge) *Edge {
 
 // ToVertex converts data element to vertex
 func (elem *DataElement) ToVertex() *gripql.Vertex {
+	if elem == nil {
+		return &gripql.Vertex{}
+	}
 	sValue, err := structpb.NewStruct(elem.Data)
 	if err != nil {
 		fmt.Printf("Error: %s %#v\n", err, elem.Data)
@@ -185,6 +192,9 @@ func (elem *DataElement) ToVertex() *gripql.Vertex {
 
 // ToEdge converts data element to edge
 func (elem *DataElement) ToEdge() *gripql.Edge {
+	if elem == nil {
+		return &gripql.Edge{}
+	}
 	sValue, _ := structpb.NewStruct(elem.Data)
 	return &gripql.Edge{
 		Gid:   elem.ID,
